@@ -69,6 +69,48 @@ async fn send_token<S: Storage>(group: &KeyspaceGroup<S>, tok: &str) -> String {
     }
 }
 
+/// Metadata and live documents of the keyspace, read once (retried on a read error), and their
+/// dump in the format of `hx_ec::show_store`.
+async fn read_store<S: Storage>(st: &S) -> Result<(Vec<(u64, u64, bool)>, String), String> {
+    let mut last = String::new();
+    for attempt in 0..5 {
+        if attempt > 0 {
+            tokio::time::sleep(Duration::from_millis(5)).await;
+        }
+        let mut meta: Vec<(u64, u64, bool)> = match st.iter_metadata(KS).await {
+            Ok(it) => it.map(|(k, t, d)| (k, t.as_u64(), d)).collect(),
+            Err(e) => {
+                last = format!("iter_metadata: {e:?}");
+                continue;
+            },
+        };
+        meta.sort();
+        let mut docs = Vec::new();
+        let mut failed = false;
+        for (k, _, dead) in &meta {
+            match st.get(KS, *k).await {
+                Ok(Some(d)) => docs.push(format!("{:x}={:x}.{:x}", k, d.last_updated().as_u64(), payload_of(&d))),
+                Ok(None) => {
+                    if !*dead {
+                        docs.push(format!("{:x}=missing", k));
+                    }
+                },
+                Err(e) => {
+                    last = format!("get({:x}): {e:?}", k);
+                    failed = true;
+                    break;
+                },
+            }
+        }
+        if failed {
+            continue;
+        }
+        let m: Vec<String> = meta.iter().map(|(k, t, d)| format!("{:x}={:x}.{}", k, t, *d as u8)).collect();
+        return Ok((meta, format!("M[{}]G[{}]", m.join(","), docs.join(","))));
+    }
+    Err(last)
+}
+
 /// What the set shows against what the store's metadata says, id by id.
 fn agree(set: &Set2, meta: &[(u64, u64, bool)]) -> Option<String> {
     let (e, d) = set_contents(set);
@@ -190,7 +232,9 @@ fn run_case<S: Backend>(w: &mut CaseWriter, root: &Path, n: u64, probes: &[u64],
                     }
                     let tok = &toks[i];
                     if tok == "R" {
-                        before = Some(actor_set(&group, KS).await);
+                        let mut b = actor_set(&group, KS).await;
+                        let _ = b.purge_old_deletes();
+                        before = Some(b);
                         i += 1;
                         return false;
                     }
@@ -202,12 +246,29 @@ fn run_case<S: Backend>(w: &mut CaseWriter, root: &Path, n: u64, probes: &[u64],
                     i += 1;
                 }
                 let set = actor_set(&group, KS).await;
-                let st = show_store(&*store, KS).await;
-                out.push(format!("{} {} {}", reply, show_set(&set, probes), st));
-                let meta: Vec<(u64, u64, bool)> = match store.iter_metadata(KS).await {
-                    Ok(it) => it.map(|(k, t, d)| (k, t.as_u64(), d)).collect(),
-                    Err(_) => Vec::new(),
+                // ONE read of the store feeds both the dump and the oracle; a read error is retried and,
+                // if it persists, reported as such (never silently taken for an empty store)
+                let (meta, st) = match read_store(&*store).await {
+                    Ok(x) => x,
+                    Err(e) => {
+                        fails.push(("storage-read-fails".into(), format!("after token {}: {}", i, e)));
+                        (Vec::new(), "M?G?".to_string())
+                    },
                 };
+                // Dumps and oracle are taken modulo purgeable tombstones: on this real-time runtime the
+                // node's own purge task fires about a millisecond after every start, at a point of the
+                // history nobody controls (purging is invisible to every other observation: C08).
+                let keep = |t: u64| set.will_apply(PROBE_KEY, datacake_crdt::HLCTimestamp::from_u64(t));
+                let meta: Vec<(u64, u64, bool)> = meta.into_iter().filter(|(_, t, dead)| !*dead || keep(*t)).collect();
+                let st = if st == "M?G?" {
+                    st
+                } else {
+                    let m: Vec<String> = meta.iter().map(|(k, t, d)| format!("{:x}={:x}.{}", k, t, *d as u8)).collect();
+                    format!("M[{}]{}", m.join(","), &st[st.find("]G[").map(|i| i + 1).unwrap_or(st.len())..])
+                };
+                let mut set = set;
+                let _ = set.purge_old_deletes();
+                out.push(format!("{} {} {}", reply, show_set(&set, probes), st));
                 if let Some(detail) = agree(&set, &meta) {
                     let class = if restarted { "rebuilt-set-differs-from-storage" } else { "set-and-storage-disagree" };
                     fails.push((class.to_string(), format!("after token {}: {}", i, detail)));
